@@ -266,6 +266,16 @@ type fakeEnv struct {
 	script     []bool // auto mode: outcomes of successive Do calls (true = nil); exhausted = nil
 	scriptPos  int
 	allBlocks  int
+	pingFail   bool              // what the next Ping of a client of this env answers
+	nPing      int
+	errFn      func(k int) error // auto mode: the error the k-th Do call (0-based) fails with; nil = errScripted
+	doLog      []doLogEntry      // auto mode, when logAll: every Do in call order
+	logAll     bool
+}
+
+type doLogEntry struct {
+	blk *block
+	err error
 }
 
 type loggedBlock struct {
@@ -297,13 +307,22 @@ func (c *fakeClient) Do(ctx context.Context, q ch.Query) error {
 	} else {
 		fail = c.env.rng.Chance(c.env.failDo)
 	}
+	k := c.env.nDo
 	c.env.nDo++
+	var ferr error
 	if fail {
 		c.env.nDoErr++
+		ferr = errScripted
+		if c.env.errFn != nil {
+			ferr = c.env.errFn(k)
+		}
+	}
+	if c.env.logAll {
+		c.env.doLog = append(c.env.doLog, doLogEntry{blk, ferr})
 	}
 	c.env.mu.Unlock()
 	if fail {
-		return errScripted
+		return ferr
 	}
 	// the block counts as accepted from the moment Do is about to return nil
 	c.env.mu.Lock()
@@ -312,7 +331,15 @@ func (c *fakeClient) Do(ctx context.Context, q ch.Query) error {
 	c.env.mu.Unlock()
 	return nil
 }
-func (c *fakeClient) Ping(ctx context.Context) error { return nil }
+func (c *fakeClient) Ping(ctx context.Context) error {
+	c.env.mu.Lock()
+	defer c.env.mu.Unlock()
+	c.env.nPing++
+	if c.env.pingFail {
+		return fmt.Errorf("scripted ping failure")
+	}
+	return nil
+}
 func (c *fakeClient) Close() error                   { return nil }
 
 func (e *fakeEnv) factory() ch_wrapper.IChClientFactory {
@@ -623,7 +650,7 @@ func pollPromise(p *promise.Promise[uint32]) (done bool, err error) {
 // ---------------------------------------------------------------- scenarios
 
 type mop struct {
-	Kind   string // req trigger iter dores stop flush
+	Kind   string // req trigger iter dores stop flush ping
 	Sub    int
 	Ok     bool
 	Mode   string
@@ -931,6 +958,30 @@ func runScenario(sc *scenario) (res *scenResult) {
 			iterate(i, op.Ok)
 		case "dores":
 			doResult(i, op.Ok)
+		case "ping":
+			// the watchdog branch of Run. Run is sequential: not while it is inside Do, not after it returned.
+			if inDo[i] != nil {
+				continue
+			}
+			ops = append(ops, fmt.Sprintf("p:%d:%s", i, b01(op.Ok)))
+			if !stopped[i] {
+				env.mu.Lock()
+				env.pingFail = !op.Ok
+				before := env.nPing
+				env.mu.Unlock()
+				hadClient := subs[i].VerifState().Client
+				subs[i].VerifPing(2 * time.Second)
+				env.mu.Lock()
+				pinged := env.nPing > before
+				env.mu.Unlock()
+				res.stats["ping"]++
+				if pinged != hadClient {
+					res.err = fmt.Errorf("watchdog ping of sub-service %d: client present %v but Ping called %v", i, hadClient, pinged)
+				}
+				if pinged && !op.Ok {
+					res.stats["ping-fail"]++
+				}
+			}
 		case "stop":
 			st := subs[i].VerifState()
 			if inDo[i] != nil || st.FlushDue || !st.Running {
@@ -1126,8 +1177,10 @@ func genScenario(rng *h.Rng, maxOps int, allowConnFail bool, big bool) *scenario
 				connFails++
 			}
 			sc.Ops = append(sc.Ops, mop{Kind: "iter", Sub: sub, Ok: ok})
-		case x < 98:
+		case x < 94:
 			sc.Ops = append(sc.Ops, mop{Kind: "dores", Sub: sub, Ok: rng.Chance(65)})
+		case x < 98:
+			sc.Ops = append(sc.Ops, mop{Kind: "ping", Sub: sub, Ok: rng.Chance(55)})
 		default:
 			if rng.Chance(30) {
 				sc.Ops = append(sc.Ops, mop{Kind: "stop", Sub: sub})
@@ -1166,6 +1219,13 @@ func corpusScenarios() []*scenario {
 		// rows with accounted size 0 are never flushed
 		{Kind: "metrics", SvcNum: 1, Final: true, Ops: []mop{
 			{Kind: "req", Mode: "sync", ReqKind: "metrics", Lens: rect("metrics", 2), Size: 0}, {Kind: "trigger"}, {Kind: "iter", Ok: true}}},
+		// a failed watchdog ping drops the client; the next iteration reconnects; a ping without client does nothing
+		{Kind: "samples", SvcNum: 1, Final: true, Ops: []mop{
+			{Kind: "ping", Ok: false},
+			{Kind: "req", Mode: "sync", ReqKind: "samples", Lens: rect("samples", 1), Size: 30},
+			{Kind: "trigger"}, {Kind: "iter", Ok: true}, {Kind: "dores", Ok: true}, {Kind: "ping", Ok: true}, {Kind: "ping", Ok: false},
+			{Kind: "req", Mode: "sync", ReqKind: "samples", Lens: rect("samples", 2), Size: 60},
+			{Kind: "trigger"}, {Kind: "iter", Ok: true}, {Kind: "dores", Ok: true}}},
 		// two sub-services: requests go to the one that is inserting
 		{Kind: "tempoSamples", SvcNum: 2, Final: true, Ops: []mop{
 			{Kind: "req", Mode: "sync", ReqKind: "tempoSamples", Lens: rect("tempoSamples", 1), Size: 70}, {Kind: "flush"},
